@@ -334,7 +334,8 @@ What follows carries the single-transaction theorems above to histories. Outline
   confirmed transactions plus the pool. Freshness / causality become *consequences*. Kept by `doTx_Ledger`, `play_Ledger`,
   `playForMiner_Ledger`, `undoBlock_Ledger`, `todoBlock_Ledger`, `walk_Ledger`, starting from `Ledger_genesis`;
   `Ledger.invariants` lists what it gives (conservation, supply = confirmed coinbase outputs, no double spend on chain or
-  pending, balances). `play_walk_conservation_refuted` shows that the block-validity hypotheses cannot be dropped.
+  pending, balances). `play_PoolLive_repaired` / `play_refuses_child_without_parent`: the parents hypothesis is discharged
+  by the repaired `processUnconfirmTxs` (a block citing a pending transaction it does not confirm first is refused).
 -/
 
 -- ================================================================ undo sums (conservation carried to whole histories)
@@ -1274,7 +1275,7 @@ theorem play_PoolLive (e : Env) (s : St) (lh : Int) (b : Block) (hinv : PoolLive
     (hdeps : ∀ c ∈ b.txs, c ∈ s.pool → ∀ p ∈ s.pool, dependsOn e s.pool c p = true → p ∈ b.txs) :
     PoolLive e (play e s lh b).1 := by
   by_cases hok : (play e s lh b).2 = .ok
-  · obtain ⟨s2, happ, hshape⟩ := play_ok e s lh b hok
+  · obtain ⟨s2, happ, hshape⟩ := play_ok e s lh b hok (fun x hx => (playEvict_outside e s b hdeps x hx).2)
     rw [hshape]
     have hl := hinv.live
     -- the evicted set: pending, outside the block, closed under dependents
@@ -1896,7 +1897,7 @@ theorem play_Ledger (e : Env) (s : St) (lh : Int) (b : Block) (C : List Nat) (h 
     Ledger e (play e s lh b).1 (if (play e s lh b).2 = .ok then C ++ b.txs else C) := by
   by_cases hok : (play e s lh b).2 = .ok
   · rw [if_pos hok]
-    obtain ⟨s2, happ, hshape⟩ := play_ok e s lh b hok
+    obtain ⟨s2, happ, hshape⟩ := play_ok e s lh b hok (fun x hx => (playEvict_outside e s b hdeps x hx).2)
     rw [hshape]
     have hl := h.led
     obtain ⟨_, hndP, _⟩ := List.nodup_append.mp hl.nodupA
@@ -2304,46 +2305,47 @@ example :
 
 /-- the statement one would like: `play` followed by a `walk` keeps conservation under the hash-causality hypotheses of
 `play_PoolLive` alone — *without* the block-validity hypotheses `hparents` / `hdeps` (the block contains the pending
-transactions its transactions cite / depend on). It is FALSE in the model (refuted below): `play` accepts a block that
-confirms a pending child without its pending parent, and the next pool roll-back then "un-spends" the parent's input
-while the child's outputs stay — tokens are counted twice. -/
-def play_walk_conservation_statement : Prop :=
-  ∀ (e : Env) (s : St) (lh : Int) (b : Block) (dest : Nat), PoolLive e s →
-    b.txs.Nodup → (∀ i ∈ b.txs, (e.tx i).id = i) →
-    (∀ i ∈ b.txs, i ∉ s.pool →
+transactions its transactions cite / depend on). It WAS false of the code as found: `PlayAndRepost` accepted a block that
+confirms a pending child without its pending parent (or spends a pending output from outside the pool), and the next pool
+roll-back then "un-spent" the parent's input while the child's outputs stayed — tokens counted twice. Reproduced on the
+real code (corpus/C02/block-confirms-child-without-pending-parent.ops) and repaired there (`processUnconfirmTxs` refuses
+such a block); `play` follows the repaired code (`parentMissing`). -/
+theorem play_parents_in_block (e : Env) (s : St) (lh : Int) (b : Block) (hok : (play e s lh b).2 = .ok) :
+    ∀ i ∈ b.txs, ∀ r ∈ (e.tx i).ins, r.tx ∈ s.pool → r.tx ∈ b.txs := by
+  intro i hi r hr hp
+  have hpm := play_ok_parents e s lh b hok
+  obtain ⟨pre, post, hsplit⟩ := List.append_of_mem hi
+  have := parentMissing_false e s.pool [] b.txs hpm pre i post hsplit r.tx
+    (by unfold refTxs; exact List.mem_append_left _ (List.mem_map.mpr ⟨r, hr, rfl⟩)) hp
+  rw [hsplit]
+  simp only [List.nil_append] at this
+  exact List.mem_append_left _ this
+
+/-- `play` keeps the strong pool invariant with no hypothesis on the parents of the block's transactions: a block that
+cites a pending transaction it does not itself confirm first is refused (and a refused block changes nothing) -/
+theorem play_PoolLive_repaired (e : Env) (s : St) (lh : Int) (b : Block) (hinv : PoolLive e s)
+    (hnd : b.txs.Nodup) (hid : ∀ i ∈ b.txs, (e.tx i).id = i)
+    (hnew : ∀ i ∈ b.txs, i ∉ s.pool →
       (∀ o, lookup s.U (i, o) = none) ∧ (∀ r ∈ (e.tx i).ins, r.tx ≠ i) ∧
       ((e.tx i).coinbase = true → (e.tx i).ins = [] ∧ feeOf (e.tx i).outs = 0) ∧
-      (∀ j ∈ s.pool, ∀ r ∈ (e.tx j).ins, r.tx ≠ i)) →
-    sumU (walk e (play e s lh b).1 lh dest false).1.U +
-      poolFees e (walk e (play e s lh b).1 lh dest false).1.pool = (walk e (play e s lh b).1 lh dest false).1.total
+      (∀ j ∈ s.pool, ∀ r ∈ (e.tx j).ins, r.tx ≠ i))
+    (hdeps : ∀ c ∈ b.txs, c ∈ s.pool → ∀ p ∈ s.pool, dependsOn e s.pool c p = true → p ∈ b.txs) :
+    PoolLive e (play e s lh b).1 := by
+  by_cases hok : (play e s lh b).2 = .ok
+  · exact play_PoolLive e s lh b hinv hnd hid hnew (play_parents_in_block e s lh b hok) hdeps
+  · rw [XV.C05.play_fail_noop e s lh b hok]; exact hinv
 
-/-- witness: pool [1, 2] with 2 spending an output of 1; the block [9 (award), 2] confirms the child 2 alone. After `play`
-conservation still holds (13 + pending fee 2 = 15), after the following `walk` (roll-back and re-submission of 1) the table
-holds 16 + pending fee 2 = 18 against a total of 15. -/
-theorem play_walk_conservation_refuted : ¬ play_walk_conservation_statement := by
-  intro hst
-  let e : Env := { txs := [
-    (1, ⟨1, false, [⟨0, 0, "u0", 5, 0, false⟩], [⟨"u1", 3, 0⟩, ⟨"$", 2, 0⟩], [], []⟩),
-    (2, ⟨2, false, [⟨1, 0, "u1", 3, 0, false⟩], [⟨"u2", 2, 0⟩, ⟨"$", 1, 0⟩], [], []⟩),
-    (9, ⟨9, true, [], [⟨"miner", 10, 0⟩], [], []⟩)] }
-  let s0 : St := { U := [((0, 0), ⟨"u0", 5, 0⟩)], total := 5 }
-  let b : Block := ⟨20, some 0, 1, [9, 2], "miner"⟩
-  have h0 : PoolLive e s0 := PoolLive_of_empty e s0 (by unfold UNodup; decide) rfl (by decide)
-  have h1 := doTx_PoolLive e s0 0 1 h0
-    (fun _ => ⟨by decide, lookup_none_of_noid _ _ (by decide), by decide, by decide, by decide⟩)
-  have h2 := doTx_PoolLive e _ 0 2 h1
-    (fun _ => ⟨by decide, lookup_none_of_noid _ _ (by decide), by decide, by decide, by decide⟩)
-  have := hst e (doTx e (doTx e s0 0 1).1 0 2).1 0 b 20 h2 (by decide) (by decide)
-    (by
-      intro i hi hnp
-      have hi9 : i = 9 := by
-        simp only [b, List.mem_cons, List.not_mem_nil, or_false] at hi
-        rcases hi with rfl | rfl
-        · rfl
-        · exact absurd (by decide) hnp
-      subst hi9
-      exact ⟨lookup_none_of_noid _ _ (by decide), by decide, by decide, by decide⟩)
-  exact absurd this (by decide)
+/-- the witness that refuted conservation for the code as found — pool [1, 2] with 2 spending an output of 1, block
+[9 (award), 2] confirming the child alone — is now refused, and nothing changes -/
+theorem play_refuses_child_without_parent :
+    let e : Env := { txs := [
+      (1, ⟨1, false, [⟨0, 0, "u0", 5, 0, false⟩], [⟨"u1", 3, 0⟩, ⟨"$", 2, 0⟩], [], []⟩),
+      (2, ⟨2, false, [⟨1, 0, "u1", 3, 0, false⟩], [⟨"u2", 2, 0⟩, ⟨"$", 1, 0⟩], [], []⟩),
+      (9, ⟨9, true, [], [⟨"miner", 10, 0⟩], [], []⟩)] }
+    let s0 : St := { U := [((0, 0), ⟨"u0", 5, 0⟩)], total := 5 }
+    let s2 := (doTx e (doTx e s0 0 1).1 0 2).1
+    (play e s2 0 ⟨20, some 0, 1, [9, 2], "miner"⟩).2 = .utxo ∧ (play e s2 0 ⟨20, some 0, 1, [9, 1, 2], "miner"⟩).2 = .ok := by
+  decide
 
 -- ================================================================ corollaries in terms of `PoolInv`
 
